@@ -39,7 +39,7 @@ class C01(core.PropBase):
     side = __import__("os").environ.get("VERIF_SIDE", "sound")        # which disagreements this property owns
     component = "accept"
     extract_file = "ExtractAccept.v"
-    chars = _SRC_CHARS + "".join(chr(i) for i in range(128, 256)) + "٣　 ²"
+    chars = _SRC_CHARS + "".join(chr(i) for i in range(128, 256)) + "٣　 ²" + M.ODD_CHARS
     uses_table = True
     chunk_size = 50
     theorem_for_mismatch = "C01_table / validator iffs; model = implementation verdict correspondence"
